@@ -28,10 +28,14 @@ instance : Frob BnFq2 := ⟨fun k a => if k % 2 = 1 then Quad.conj a else a⟩
 
 def pairToFq2 {m : Nat} (c : Nat × Nat) : Quad (Zn m) := ⟨Zn.ofNat m c.1, Zn.ofNat m c.2⟩
 
+/-- The tables, indexed as the sources index them: the generic `Frob` instances of `Tower.lean` pass
+`power % 6` / `power % 12`; the index is reduced again by the modulus parsed from the
+`TABLE[power % N]` sites (`Gen.bnFrobIdx`), so that a changed modulus in the source changes the
+model (and breaks `frobenius_table_relations`). -/
 instance : FrobCoeffs BnFq2 where
-  c6c1 i := pairToFq2 (Gen.bnFrob6C1.getD i (0, 0))
-  c6c2 i := pairToFq2 (Gen.bnFrob6C2.getD i (0, 0))
-  c12c1 i := pairToFq2 (Gen.bnFrob12C1.getD i (0, 0))
+  c6c1 i := pairToFq2 (Gen.bnFrob6C1.getD (i % Gen.bnFrobIdx.1) (0, 0))
+  c6c2 i := pairToFq2 (Gen.bnFrob6C2.getD (i % Gen.bnFrobIdx.2.1) (0, 0))
+  c12c1 i := pairToFq2 (Gen.bnFrob12C1.getD (i % Gen.bnFrobIdx.2.2) (0, 0))
 
 /-! ## BLS12-381 -/
 abbrev BlsFp := Zn Gen.blsP
@@ -50,12 +54,14 @@ instance : NonRes BlsFp2 := ⟨blsFp2MulNR⟩
 
 /-- `bls12_381/fp2.rs: frobenius_map`: `c1 *= FROBENIUS_COEFF_FP2_C1[power % 2]`. -/
 instance : Frob BlsFp2 :=
-  ⟨fun k a => ⟨a.c0, a.c1 * Zn.ofNat Gen.blsP (Gen.blsFrob2C1.getD (k % 2) 0)⟩⟩
+  ⟨fun k a => ⟨a.c0, a.c1 * Zn.ofNat Gen.blsP (Gen.blsFrob2C1.getD (k % Gen.blsFrobIdx.1) 0)⟩⟩
 
+/-- Indexed through the moduli parsed from the `TABLE[power % N]` sites (`Gen.blsFrobIdx`), see the
+BN254 instance. -/
 instance : FrobCoeffs BlsFp2 where
-  c6c1 i := pairToFq2 (Gen.blsFrob6C1.getD i (0, 0))
-  c6c2 i := pairToFq2 (Gen.blsFrob6C2.getD i (0, 0))
-  c12c1 i := pairToFq2 (Gen.blsFrob12C1.getD i (0, 0))
+  c6c1 i := pairToFq2 (Gen.blsFrob6C1.getD (i % Gen.blsFrobIdx.2.1) (0, 0))
+  c6c2 i := pairToFq2 (Gen.blsFrob6C2.getD (i % Gen.blsFrobIdx.2.2.1) (0, 0))
+  c12c1 i := pairToFq2 (Gen.blsFrob12C1.getD (i % Gen.blsFrobIdx.2.2.2) (0, 0))
 
 /-! ## Flat coefficient lists (the order used by the line protocol:
 `c0.c0.c0, c0.c0.c1, c0.c1.c0, …, c1.c2.c1`) -/
